@@ -904,6 +904,45 @@ func (p *Prog) chanOpsOnField(f *types.Var) []chanOp {
 					}
 				}
 			}
+			// a method of a named channel type called on this field: what the method does to its receiver happens to
+			// this field
+			if nt := namedOf(f.Type()); nt != nil && inner == nil {
+				if _, isCh := nt.Underlying().(*types.Chan); isCh {
+					if cc := callOf(in); cc != nil && len(cc.Args) >= 1 {
+						if m := calleeFn(cc); m != nil && m.Blocks != nil && m.Signature.Recv() != nil && namedOf(m.Signature.Recv().Type()) == nt && len(m.Params) > 0 {
+							if g, ob := loadedField(stripChanConv(cc.Args[0])); g == f {
+								recv := ssa.Value(m.Params[0])
+								eachInstr(m, func(_ *ssa.BasicBlock, _ int, y ssa.Instruction) {
+									switch z := y.(type) {
+									case *ssa.Send:
+										if stripChanConv(z.Chan) == recv {
+											out = append(out, chanOp{Kind: opSend, In: in, Fn: fn, Blocking: true, Val: z.X, Base: ob})
+										}
+									case *ssa.UnOp:
+										if z.Op == token.ARROW && stripChanConv(z.X) == recv {
+											out = append(out, chanOp{Kind: opRecv, In: in, Fn: fn, Blocking: true, Base: ob})
+										}
+									case *ssa.Select:
+										for _, st := range z.States {
+											if stripChanConv(st.Chan) == recv {
+												kind := opRecv
+												if st.Dir == types.SendOnly {
+													kind = opSend
+												}
+												out = append(out, chanOp{Kind: kind, In: in, Fn: fn, InSelect: z, Blocking: z.Blocking, Val: st.Send, Base: ob})
+											}
+										}
+									case *ssa.Call, *ssa.Defer:
+										if isBuiltin(y, "close") && stripChanConv(callOf(y).Args[0]) == recv {
+											out = append(out, chanOp{Kind: opClose, In: in, Fn: fn, Base: ob})
+										}
+									}
+								})
+							}
+						}
+					}
+				}
+			}
 			switch x := in.(type) {
 			case *ssa.Send:
 				if g, base := chanFieldOf(x.Chan); g == f {
